@@ -324,7 +324,7 @@ func cloneRec(x Rec) Rec {
 func ValidWire(r *core.Rand, mt protoreflect.MessageType, o MsgOpts, k int, hist func(string)) []byte {
 	m := mt.New()
 	Fill(r, m, o)
-	b, err := proto.MarshalOptions{AllowPartial: true, Deterministic: r.Bool()}.Marshal(m.Interface())
+	b, err := proto.MarshalOptions{AllowPartial: true, Deterministic: true}.Marshal(m.Interface())
 	if err != nil {
 		return nil
 	}
